@@ -171,9 +171,24 @@ def check_simple(run, f, rule='R4'):
                 ok = True
     if ok:
         run.holds(rule, f.key, 'definition', desc, f=f)
-    else:
-        run.violation(rule, f.key, 'definition', 'predicate is not of the form %s on its argument: %s'
-                      % (desc, src(e)), f=f)
+        return
+    # the same test written on squares: |v|^2 < tol^2 -- equivalent when BOTH sides are squared
+    if f.key == 'base/vectors:iszerovec':
+        for p in ('dot(_V, _V) < _T', 'sum(_V ** 2) < _T', 'sum(_V * _V) < _T', 'normsq(_V) < _T', 'norm(_V) ** 2 < _T', '_V @ _V < _T'):
+            b = matches(p, e)
+            if b is not None and isinstance(b['_V'], ast.Name) and b['_V'].id == P:
+                t = b['_T']
+                squared = isinstance(t, ast.BinOp) and (isinstance(t.op, ast.Pow) and isinstance(t.right, ast.Constant) and t.right.value == 2 or
+                                                        isinstance(t.op, ast.Mult) and ast.dump(t.left) == ast.dump(t.right))
+                if squared:
+                    run.holds(rule, f.key, 'definition', 'squared norm against the squared tolerance', f=f)
+                else:
+                    run.violation(rule, f.key, 'definition', 'the SQUARED norm of the argument is compared with the unsquared tolerance %s: the zero threshold on '
+                                  'the length becomes sqrt(tol eps) ~ 5e-8 instead of tol eps ~ 2e-15, so short non-zero vectors (a slow rotation, a '
+                                  'small twist) are taken for zero' % src(t, 30), f=f)
+                return
+    run.violation(rule, f.key, 'definition', 'predicate is not of the form %s on its argument: %s'
+                  % (desc, src(e)), f=f)
 
 
 def check_isskewa(run, f, rule='R4'):
@@ -327,6 +342,15 @@ def check_class_isvalid(run, rule='R4'):
                             ('default reject', ends_false, 'anything else answers False')):
             (run.holds if ok else run.violation)(rule, f.key, nm, msg + (' present' if ok else ' MISSING: a non-algebra-form '
                                                                          'array is accepted'), f=f)
+
+
+def run_vector_predicates(run, rule='R4'):
+    """the zero / unit predicates that the normalisation and screw functions branch on"""
+    prog = run.prog
+    for k in ('base/vectors:isunitvec', 'base/vectors:iszerovec', 'base/vectors:iszero'):
+        check_simple(run, prog.func(k), rule=rule)
+    check_isunittwist(run, prog.func('base/vectors:isunittwist'), '0:3', '3:6', False, rule=rule)
+    check_isunittwist(run, prog.func('base/vectors:isunittwist2'), '0:2', '2', True, rule=rule)
 
 
 def run_r4(run, rule='R4'):
